@@ -94,15 +94,24 @@ Fixpoint accept_chain (fold : bool) (cands : list (bool * bool * nat)) : list na
    candidate -- except that with obsolete line folding a whitespace-only line that follows another line may be
    the continuation of a header being folded (which `ignore_invalid_headers` may later drop, so that no stored
    header shows it): then the next candidate is acceptable too.  A strictly empty line always ends the head. *)
-Definition expected_ends (spb fold : bool) (first_name : option nat) (off : nat) (l : list N) : list nat :=
+Definition end_cands (spb : bool) (first_name : option nat) (off : nat) (l : list N) : list (bool * bool * nat) :=
   let ls := lines_from off off [] l in
   let before_first (s : nat) := match first_name with None => true | Some f => Nat.ltb s f end in
   let term := fun (x : nat * nat * list N) =>
     match x with (s, e, ln) =>
       strictly_empty ln || (spb && before_first s && ws_empty ln) end in
-  accept_chain fold (map (fun x : nat * nat * list N =>
-                            match x with (s, e, ln) => (strictly_empty ln, negb (Nat.eqb s off), e) end)
-                         (filter term ls)).
+  map (fun x : nat * nat * list N =>
+         match x with (s, e, ln) => (strictly_empty ln, negb (Nat.eqb s off), e) end)
+      (filter term ls).
+Definition expected_ends (spb fold : bool) (first_name : option nat) (off : nat) (l : list N) : list nat :=
+  accept_chain fold (end_cands spb first_name off l).
+(* the first candidate that ends the head FOR CERTAIN: a strictly empty line, or a whitespace-only candidate that
+   cannot be the continuation of a folded header (folding off, or no line before it) *)
+Fixpoint certain_end (fold : bool) (cands : list (bool * bool * nat)) : option nat :=
+  match cands with
+  | [] => None
+  | (strict, hasprev, e) :: r => if strict || negb (fold && hasprev) then Some e else certain_end fold r
+  end.
 Definition expected_end (spb : bool) (first_name : option nat) (off : nat) (l : list N) : option nat :=
   hd_error (expected_ends spb false first_name off l).
 
@@ -127,10 +136,11 @@ Definition check_C03 (k : kind) (spb fold : bool) (buf : list N) (o : aobs) : bo
   | Partial =>
       match start_line_end k buf with
       | Some (so, l) =>
-          (* no stored header is visible on Partial through `exposed`; use the array *)
+          (* no stored header is visible on Partial through `exposed`; use the array.  Partial is wrong only when a
+             line that ends the head for certain is already in the buffer (a whitespace-only line after another line
+             may, with folding on, be the continuation of a header that is not stored yet or was dropped later) *)
           let first := first_name_off (a_array o) in
-          let spb' := match first with None => spb && negb fold | Some _ => spb end in
-          match expected_end spb' first so l with
+          match certain_end fold (end_cands spb first so l) with
           | Some _ => false
           | None => true
           end
